@@ -509,7 +509,12 @@ func (option *Option) call(value *string) error {
 			return err
 		}
 
-		retval = option.value.Call([]reflect.Value{val})
+		if option.value.Type().IsVariadic() && option.value.Type().NumIn() == 1 {
+			// func(...T): val is the []T that holds the converted argument
+			retval = option.value.CallSlice([]reflect.Value{val})
+		} else {
+			retval = option.value.Call([]reflect.Value{val})
+		}
 	}
 
 	if len(retval) == 1 && retval[0].Type() == reflect.TypeOf((*error)(nil)).Elem() {
